@@ -25,7 +25,7 @@ EXHAUSTIVE = {'quick': False, 'thorough': False,
 ASSUMPTIONS = ['keys are non-empty (the statement); a key sent both in the query and in the form is outside the params comparison',
                'the encoder is urllib.parse.quote_plus/quote, independent of the scanner under test']
 
-ALPHA = ['a', 'b', 'k', '=', '&', '+', '%', ' ', ';', '#', '?', '/', 'é', 'ß', '日', '\U0001f600', '1', '%41', '"', "'", '\n', '\x00', '\x7f', '.', '-', '_', '~', 'A']
+ALPHA = ['Ã©', 'Â£', 'â\x82¬', 'Ã\x9f', 'Ã', 'Â', 'a', 'b', 'k', '=', '&', '+', '%', ' ', ';', '#', '?', '/', 'é', 'ß', '日', '\U0001f600', '1', '%41', '"', "'", '\n', '\x00', '\x7f', '.', '-', '_', '~', 'A']
 TOT = 'a=&%+2'
 
 
